@@ -213,6 +213,12 @@ func (g *Gen) evalIdent(ctx *specCtx, name string) Val {
 	if v, ok := ctx.bound[name]; ok {
 		return v
 	}
+	// result names declared by the clause shadow formals of the same name
+	for i, n := range ctx.resultNames {
+		if n == name && n != "_" && n != "" && i < len(ctx.results) {
+			return ctx.results[i]
+		}
+	}
 	if v, ok := ctx.binds[name]; ok {
 		return v
 	}
